@@ -260,9 +260,13 @@ def main(argv=None):
 	if st['gate']:
 		for g in st['gate']:
 			ctx.broke('grep-gate', g)
-	if not st['translator_ok']:
-		ctx.broke('translator tools/pyx2v.py (model could not be regenerated from the .pyx sources)', st['translator_msg'])
 	props = st['props']
+	wire.DRIVER = st.get('driver_path') or wire.DRIVER
+	wire.NO_MODEL = set(st.get('no_model') or [])
+	if not st['translator_ok'] and (not props['compiled'] or not st['driver_ok']):
+		# a source group that cannot be translated leaves a stub that does not compile: it matters to this
+		# property only if its theorems or its model depend on the stub
+		ctx.broke('translator (part of the model could not be regenerated from the sources)', st['translator_msg'])
 	for f, msg in st['failed']:
 		# a file that does not compile matters to this property only if its theorems or the model
 		# driver depend on it
